@@ -113,4 +113,74 @@ def rewriteTail (pre armIndent bodyIndent : List Char) (hasBlockBody : Bool) (c 
     List Char :=
   assembleArm pre armIndent hasBlockBody (undoSubsts substs (reindent bodyIndent ranges c snippet))
 
+/-! ## `format_code_block` (`lib.rs`): a statement-shaped body is wrapped in `fn main() {` … `}`
+
+`format_code_block(code, config)` = `enclose_in_main_block`, `format_snippet` of the wrapped text,
+then the wrapper's header and closing brace are cut off, the ranges shifted (`unwrap_code_block`)
+and every line un-indented by one level. -/
+
+/-- `Indent::from_width(config, config.tab_spaces()).to_string(config)`: one level. -/
+def levelIndent (hardTabs : Bool) (tabSpaces : Nat) : List Char :=
+  if hardTabs then ['\t'] else List.replicate tabSpaces ' '
+
+/-- The loop of `enclose_in_main_block`.  `skipEmpty` = the condition reads
+`need_indent && !line.is_empty()` (generated: `RF.Gen.SkipSites.encloseSkipsEmptyLines`); before
+/repo 22cb75b it was `need_indent` alone. -/
+def encloseLines (ind : List Char) (c : Cfg) (skipEmpty : Bool) :
+    Bool → List (Kind × List Char) → List Char
+  | _, [] => []
+  | need, (kind, l) :: rest =>
+    (if need && (!skipEmpty || !l.isEmpty) then ind else []) ++ l ++ '\n' ::
+      encloseLines ind c skipEmpty (indentNextLine c kind l) rest
+
+def fnMainPrefix : List Char := "fn main() {\n".toList
+
+/-- `enclose_in_main_block(s, config)` -/
+def encloseInMainBlock (ind : List Char) (c : Cfg) (skipEmpty : Bool) (s : List Char) : List Char :=
+  fnMainPrefix ++ encloseLines ind c skipEmpty true (lineClasses s) ++ ['}']
+
+/-- One line of the un-indenting loop; `none` = the `return None` for a line wider than
+`max_width`.  Lengths are in characters (bytes in the code: ASCII texts). -/
+def unwrapLine (ind : List Char) (offset maxWidth : Nat) (isIndented : Bool) (l : List Char) :
+    Option (List Char) :=
+  if !isIndented then some l
+  else if l.length > maxWidth then none
+  else if l.length > ind.length then (if ind.isPrefixOf l then some (l.drop offset) else some l)
+  else some l
+
+def unwrapLines (ind : List Char) (offset maxWidth : Nat) (c : Cfg) :
+    Bool → List (Kind × List Char) → Option (List (List Char))
+  | _, [] => some []
+  | isInd, (kind, l) :: rest =>
+    match unwrapLine ind offset maxWidth isInd l,
+          unwrapLines ind offset maxWidth c (indentNextLine c kind l) rest with
+    | some t, some r => some (t :: r)
+    | _, _ => none
+
+/-- `str::rfind('}')` as an index. -/
+def rfindBrace (s : List Char) : Option Nat :=
+  match s.reverse.findIdx? (· == '}') with
+  | some i => some (s.length - 1 - i)
+  | none => none
+
+/-- Lines joined by `"\n"` (no final one). -/
+def intercalateNl : List (List Char) → List Char
+  | [] => []
+  | [l] => l
+  | l :: r => l ++ '\n' :: intercalateNl r
+
+/-- The second half of `format_code_block`, from the formatted wrapped text and its ranges:
+`(snippet, non_formatted_ranges)`, or `none` when a line is wider than `max_width`. -/
+def unwrapFormatted (hardTabs : Bool) (tabSpaces maxWidth : Nat) (c : Cfg)
+    (formatted : List Char) (ranges : List (Nat × Nat)) : Option (List Char × List (Nat × Nat)) :=
+  let blockLen := (rfindBrace formatted).getD formatted.length
+  let blockStart := min fnMainPrefix.length blockLen
+  let headerLines := RF.Skip.countNl (formatted.take blockStart)
+  let inner := (formatted.drop blockStart).take (blockLen - blockStart)
+  let ind := levelIndent hardTabs tabSpaces
+  let offset := if hardTabs then 1 else tabSpaces
+  match unwrapLines ind offset maxWidth c true (lineClasses inner) with
+  | some ls => some (intercalateNl ls, unwrapCodeBlock headerLines ranges)
+  | none => none
+
 end RF.MacroBody
